@@ -59,6 +59,21 @@ class AbstractValue:
     """
 
 
+class PartialVal(AbstractValue):
+    """functools.partial(f, *args, **kwargs): the arguments are the values they had when the partial was made."""
+
+    def __init__(self, func, args, kwargs):
+        self.func, self.args, self.kwargs = func, list(args), dict(kwargs)
+
+    def __repr__(self):
+        return '<partial %r>' % (self.func,)
+
+    def abs_call(self, interp, args, kwargs):
+        kw = dict(self.kwargs)
+        kw.update(kwargs)
+        return interp.call(self.func, self.args + list(args), kw)
+
+
 class LazyIter(AbstractValue):
     """An iterator built from other (possibly abstract or unbounded) iterables: zip / chain / repeat.
     Elements are produced on demand, so an abstract sequence decides element by element how long it is."""
@@ -181,6 +196,20 @@ class RxVal:
         return hash((self.pattern, self.flags))
 
 
+def stdlib_unescape(interp, text):
+    """html.unescape(text) as the stdlib computes it under the regex the program has installed as
+    html._charref at this point of the interpretation (if any): the stdlib is the model of itself."""
+    import html
+    swapped = interp.gstate.get(('html', '_charref'))
+    saved = html._charref
+    try:
+        if isinstance(swapped, RxVal):
+            html._charref = swapped.compiled()
+        return html.unescape(text)
+    finally:
+        html._charref = saved
+
+
 class GlobalsProxy:
     def __init__(self, modname):
         self.modname = modname
@@ -288,6 +317,10 @@ class Frame:
 
 
 PURE_EXTERNALS = {
+    # data tables of the standard library (the HTML5 entity names are what CommonMark refers to)
+    'html.entities.html5': __import__('html.entities').entities.html5,
+    'html.entities.name2codepoint': __import__('html.entities').entities.name2codepoint,
+    'html.entities.codepoint2name': __import__('html.entities').entities.codepoint2name,
     'builtins.len': len, 'builtins.any': any, 'builtins.all': all,
     'builtins.enumerate': lambda *a, **k: list(enumerate(*a, **k)),
     'builtins.range': range, 'builtins.reversed': lambda x: list(reversed(x)),
@@ -367,6 +400,7 @@ class Interp:
         self.gstate = {}        # (modname, name) -> value written at call time
         self.cstate = {}        # (class qualname, name) -> value written at call time
         self._fold_memo = {}
+        self._fold_stack = []
         self.oracle = Oracle()
         self.notes = []
         self.steps = 0
@@ -464,6 +498,15 @@ class Interp:
             self._fold_memo[key] = v
             return v
         self._fold_memo[key] = _IN_PROGRESS
+        if vref.owner is None:
+            self._fold_stack.append((vref.modname, vref.name))
+            try:
+                return self._fold_module_value(vref, key)
+            finally:
+                self._fold_stack.pop()
+        return self._fold_module_value(vref, key)
+
+    def _fold_module_value(self, vref, key):
         if vref.owner is None and self._needs_sequential(vref):
             try:
                 v = self._fold_sequential(vref)
@@ -543,6 +586,14 @@ class Interp:
             if cs is not None and name in cs.attrs:
                 return self.fold_value(ValueRef(cs.modname, name, cs.attrs[name], owner=cs))
             f = f.parent
+        if self._fold_stack and frame.func is None and frame.parent is None \
+                and (frame.modname, name) != self._fold_stack[-1] \
+                and (frame.modname, name) in self.model.rebindable_globals():
+            # a module-level expression reads, at import time, a global that some function rebinds later:
+            # what it captures is the object of that moment, not the one in force when the capture is used
+            v = self.gstate[(frame.modname, name)] if (frame.modname, name) in self.gstate \
+                else self.ref_to_value(self.model.resolve(frame.modname, name), frame.modname, name)
+            return type(v)(v) if type(v) in (list, dict, set) else v
         if (frame.modname, name) in self.gstate:
             return self.gstate[(frame.modname, name)]
         ref = self.model.resolve(frame.modname, name)
@@ -779,6 +830,21 @@ class Interp:
         d = ref.dotted
         if d in self.intrinsics:
             return self.intrinsics[d](self, list(args), kwargs)
+        if d in ('re.sub', 're.subn', 're.split', 're.findall', 're.escape') and not contains_abstract(list(args)) \
+                and not contains_abstract(kwargs):
+            # pure functions of constants
+            a = list(args)
+            if d in ('re.sub', 're.subn') and len(a) > 1 and isinstance(a[1], (FuncInfo, LambdaVal, BoundMethod)):
+                repl = a[1]
+                a[1] = lambda m: self.call(repl, [m], {})
+            try:
+                return getattr(re, d.split('.')[1])(*a, **kwargs)
+            except re.error as e:
+                raise Raised(ExcVal('error', (str(e),)))
+        if d == 'html.unescape' and len(args) == 1 and isinstance(args[0], str):
+            return stdlib_unescape(self, args[0])
+        if d == 'functools.partial' and args:
+            return PartialVal(args[0], args[1:], kwargs)
         if d == 'itertools.repeat' and args and not kwargs:
             x = args[0]
             if len(args) == 1:
@@ -1011,6 +1077,13 @@ class Interp:
     def call_function(self, fi, args, kwargs, node=None):
         hook = self.func_hooks.get(fi.qualname)
         if hook is not None:
+            if kwargs:
+                # a hook sees one spelling of the call: keywords that continue the positional prefix are moved there
+                a = fi.node.args
+                names = [x.arg for x in a.posonlyargs + a.args]
+                args, kwargs = list(args), dict(kwargs)
+                while len(args) < len(names) and names[len(args)] in kwargs and not a.vararg:
+                    args.append(kwargs.pop(names[len(args)]))
             r = hook(self, fi, args, kwargs)
             if r is not _MISSING:
                 return r
@@ -1806,6 +1879,10 @@ class PyMethod:
                 return hook(interp, [recv] + list(args), kwargs)
             if contains_abstract(list(args)):
                 return Unknown('rx.%s' % name)
+            if name in ('sub', 'subn') and args and isinstance(args[0], (FuncInfo, LambdaVal, BoundMethod)):
+                # a replacement function of the analysed program: interpreted on each (concrete) match
+                repl = args[0]
+                args = [lambda m: interp.call(repl, [m], {})] + list(args[1:])
             r = getattr(recv.compiled(), name)(*args, **kwargs)
             if name == 'finditer':
                 return list(r)
